@@ -4,6 +4,7 @@ import (
 	"encoding/json"
 	"fmt"
 	"strings"
+	"time"
 
 	"verif/mc/enum"
 	"verif/mc/evid"
@@ -25,6 +26,12 @@ func init() {
 		},
 		Workers:      constInt(16, 16),
 		SchedWorkers: constInt(8, 8),
+		Budget: func(tier string) time.Duration {
+			if tier == "quick" {
+				return 150 * time.Second
+			}
+			return 100 * time.Minute
+		},
 		Run: func(c *Ctx) {
 			if c.Param == "sched" {
 				schedRun(c)
